@@ -181,6 +181,9 @@ pub struct World {
     pub last_raw: Vec<Vec<HandlerOut>>,
     /// (node, requester, request id) of the response the application handed over in this step
     pub last_responded: Option<(usize, NodeAddress, Vec<u8>)>,
+    /// (node, remote id, remote address) -> sequence number of the record the application supplied
+    /// with its latest who-are-you answer
+    pub way_answers: BTreeMap<(usize, [u8; 32], SocketAddr), u64>,
     pub all_events: Vec<Vec<String>>,
     pub t0: Instant,
     pub violations: Vec<Violation>,
@@ -296,7 +299,7 @@ impl World {
             ledger: vec![ReqLedger::default(); cfg.workload.len()],
             keys: BTreeMap::new(),
             last_events: vec![vec![]; n],
-            last_raw: vec![vec![]; n], last_responded: None,
+            last_raw: vec![vec![]; n], last_responded: None, way_answers: BTreeMap::new(),
             all_events: vec![vec![]; n],
             t0: Instant::now(),
             violations: vec![],
@@ -426,6 +429,17 @@ impl World {
         self.last_events[i].push(desc.clone());
         self.last_raw[i].push(ev.clone());
         self.all_events[i].push(desc);
+        // C12, handler part: the record of an incoming session is never older than the one the
+        // application supplied when it answered the who-are-you query for that peer
+        if let HandlerOut::Established(enr, addr, v::ConnectionDirection::Incoming) = &ev {
+            if let Some(known) = self.way_answers.get(&(i, enr.node_id().raw(), *addr)).copied() {
+                if enr.seq() < known {
+                    self.violate("C12", "a record learnt from the network replaces a stored one only if it has a strictly higher sequence number", "session-record-older-than-known", format!("node {i} reports the session of {} with a record of seq {} although its application supplied seq {known}", addr, enr.seq()));
+                } else {
+                    self.count("incoming_sessions_with_known_record");
+                }
+            }
+        }
         match ev {
             HandlerOut::WhoAreYou(w) => self.nodes[i].way_queries.push(w),
             HandlerOut::Request(a, r) => self.nodes[i].inbound.push((a, *r)),
@@ -736,10 +750,21 @@ impl World {
             Ev::AnsWay(n, known) => {
                 let w = self.nodes[*n].way_queries.remove(0);
                 let enr = if *known {
-                    self.nodes.iter().find(|x| x.id == w.0.node_id).map(|x| if self.cfg.known_seq > 1 { util::enr4(&x.key, self.cfg.known_seq, x.addr) } else { x.enr.clone() })
+                    self.nodes
+                        .iter()
+                        .find(|x| x.id == w.0.node_id)
+                        .map(|x| if self.cfg.known_seq > 1 { util::enr4(&x.key, self.cfg.known_seq, x.addr) } else { x.enr.clone() })
+                        // the crafted peer's record (seq 1) is known to the application as well
+                        .or_else(|| self.cfg.ghost.as_ref().filter(|g| g.2 && g.0.node_id() == w.0.node_id).map(|g| g.0.clone()))
                 } else {
                     None
                 };
+                // what the application said it knows when it answered the query
+                if let Some(e) = &enr {
+                    self.way_answers.insert((*n, w.0.node_id.raw(), w.0.socket_addr), e.seq());
+                } else {
+                    self.way_answers.remove(&(*n, w.0.node_id.raw(), w.0.socket_addr));
+                }
                 let _ = self.nodes[*n].tx.send(HandlerIn::WhoAreYou(w, enr));
             }
             Ev::Respond(n) => {
